@@ -62,6 +62,7 @@ func quietLogger() *logrus.Logger {
 }
 
 type kvRun struct {
+	forceMain bool
 	hotA   int
 	hotK   string
 	hotSet bool
@@ -132,7 +133,7 @@ func show(v []byte) string {
 // dirty -> origin -> cache -> db read paths are all taken over time.
 func (kr *kvRun) check(full bool, ctx string) {
 	rd := kr.sl
-	if kr.prop == "C12" {
+	if kr.prop == "C12" && !kr.forceMain {
 		rd = kr.view
 		rd.Clear()
 	}
@@ -357,6 +358,14 @@ func (kr *kvRun) apply(op kvOp) {
 		kr.curOps = nil
 	case "rollback":
 		inBlock = false
+		if kr.prop == "C12" && kr.h > 0 {
+			// a rollback discards everything the running ledger holds in memory, so reading through it right
+			// before cannot influence the history: what it answers from its caches (after earlier rollbacks and
+			// continuations) must be the latest state too
+			kr.forceMain = true
+			kr.check(true, fmt.Sprintf("running ledger before op %d (rollback)", len(kr.ops)))
+			kr.forceMain = false
+		}
 		kr.rollback(uint64(op.N))
 	}
 	if inBlock {
@@ -518,7 +527,7 @@ func (kr *kvRun) gen(r *rand.Rand, ctr *int, useAdd bool) kvOp {
 	case x < 52:
 		*ctr++
 		return kvOp{Op: "nonce", A: a, N: int64(*ctr)}
-	case x < 55:
+	case x < 59:
 		*ctr++
 		return kvOp{Op: "code", A: a, V: fmt.Sprintf("code%d", *ctr)}
 	case x < 65:
@@ -553,6 +562,16 @@ func runKV(prop string, cfg kvCfg, ops []kvOp, seed int64, work string) (kr *kvR
 	}()
 	for _, op := range ops {
 		kr.apply(op)
+	}
+	if prop == "C12" && kr.h > 0 {
+		// C12 observes through a separate ledger while the history runs (its reads must not become part of
+		// what is re-executed); at the very end the running ledger itself is read: what it answers from its
+		// caches after all the rollbacks and continuations must be the restored-and-continued state too
+		kr.forceMain = true
+		kr.sl.Finalise(true)
+		kr.m.EndTx()
+		kr.check(true, "running ledger at the end of the history")
+		kr.forceMain = false
 	}
 	return kr, ""
 }
